@@ -6,6 +6,8 @@ import FlexModel.Ldm.Query
 namespace FlexModel.Ldm
 open Spec
 
+deriving instance DecidableEq for Except
+
 theorem getPath_ok_iff (ks : List String) : ∀ (v x : JVal), getPath v ks = .ok x ↔ lookupPath v ks = some x := by
   induction ks with
   | nil => intro v x; simp [getPath, lookupPath, pure, Except.pure]
@@ -28,7 +30,7 @@ theorem getPath_error_of_none (ks : List String) : ∀ (v : JVal), lookupPath v 
 /-- the dictionary back-end's statement test is the specification's -/
 theorem stmtMatches_eq_holds (obj : JVal) (s : Stmt) : stmtMatches obj s = holds s obj := by
   unfold stmtMatches stmtValue holds opHolds
-  cases hl : lookupPath obj (s.attr.splitOn ".") with
+  cases hl : lookupPath obj s.attr with
   | none =>
     obtain ⟨e, he⟩ := getPath_error_of_none _ _ hl
     simp [he, bind, Except.bind]
@@ -310,5 +312,254 @@ theorem sortByKey_int (κ : OrderKey → Record → Int) (k : OrderKey) (rows : 
   rw [this, List.map_map]
   have : (fun (x : Record × JVal) => x.1) ∘ keyed (κ k) = id := by funext r; rfl
   rw [this, List.map_id]
+
+theorem leOf_trans {α : Type} (f : α → Int) (a b c : α) : leOf f a b → leOf f b c → leOf f a c := by
+  simp only [leOf, decide_eq_true_eq]; omega
+
+theorem leOf_total {α : Type} (f : α → Int) (a b : α) : (leOf f a b || leOf f b a) = true := by
+  simp only [leOf, Bool.or_eq_true, decide_eq_true_eq]; omega
+
+theorem stableSort_perm {α : Type} (f : α → Int) (l : List α) : (stableSort (leOf f) l).Perm l := by
+  rw [stableSort_eq_mergeSort _ (leOf_trans f) (leOf_total f)]
+  exact List.mergeSort_perm l _
+
+/-- least-significant-first passes, as the code runs them -/
+def lsdSort (κ : OrderKey → Record → Int) (keys : List OrderKey) (rows : List Record) : List Record :=
+  keys.reverse.foldl (fun acc k => stableSort (leOf (effKey κ k)) acc) rows
+
+theorem foldlM_sortByKey (κ : OrderKey → Record → Int) (ks : List OrderKey) : ∀ (rows : List Record),
+    (∀ r ∈ rows, ∀ k ∈ ks, orderKeyOf r k = .ok (.int (κ k r))) →
+    ks.foldlM sortByKey rows = .ok (ks.foldl (fun acc k => stableSort (leOf (effKey κ k)) acc) rows) := by
+  induction ks with
+  | nil => intro rows _; rfl
+  | cons k ks ih =>
+    intro rows h
+    simp only [List.foldlM_cons, List.foldl_cons]
+    rw [sortByKey_int κ k rows (fun r hr => h r hr k (by simp)), sortL_eq_stableSort]
+    simp only [bind, Except.bind]
+    apply ih
+    intro r hr k' hk'
+    exact h r ((stableSort_perm _ rows).mem_iff.mp hr) k' (by simp [hk'])
+
+theorem orderResults_int (κ : OrderKey → Record → Int) (keys : List OrderKey) (rows : List Record)
+    (h : ∀ r ∈ rows, ∀ k ∈ keys, orderKeyOf r k = .ok (.int (κ k r))) :
+    orderResults rows keys = .ok (lsdSort κ keys rows) := by
+  unfold orderResults lsdSort
+  exact foldlM_sortByKey κ keys.reverse rows (fun r hr k hk => h r hr k (List.mem_reverse.mp hk))
+
+theorem lsdSort_perm (κ : OrderKey → Record → Int) (keys : List OrderKey) (rows : List Record) :
+    (lsdSort κ keys rows).Perm rows := by
+  unfold lsdSort
+  generalize keys.reverse = ks
+  induction ks generalizing rows with
+  | nil => exact List.Perm.refl _
+  | cons k ks ih =>
+    simp only [List.foldl_cons]
+    exact (ih _).trans (stableSort_perm _ rows)
+
+theorem lexLe_single {α : Type} (f : α → Int) : lexLe [f] = leOf f := by
+  funext a b
+  simp only [lexLe, leOf, Bool.and_true]
+  by_cases h : f a < f b
+  · have : f a ≤ f b := by omega
+    simp [h, this]
+  · by_cases e : f a = f b
+    · simp [e]
+    · have : ¬ f a ≤ f b := by omega
+      simp [h, e, this]
+
+theorem lexLe_total {α : Type} : ∀ (fs : List (α → Int)) (a b : α), (lexLe fs a b || lexLe fs b a) = true := by
+  intro fs
+  induction fs with
+  | nil => intro a b; rfl
+  | cons f fs ih =>
+    intro a b
+    simp only [lexLe]
+    by_cases h1 : f a < f b
+    · simp [h1]
+    · by_cases h2 : f b < f a
+      · simp [h2]
+      · have e : f a = f b := by omega
+        have := ih a b
+        simp only [Bool.or_eq_true] at this
+        rcases this with h | h <;> simp [e, h]
+
+theorem lexLe_trans {α : Type} : ∀ (fs : List (α → Int)) (a b c : α), lexLe fs a b → lexLe fs b c → lexLe fs a c := by
+  intro fs
+  induction fs with
+  | nil => intro a b c _ _; rfl
+  | cons f fs ih =>
+    intro a b c hab hbc
+    simp only [lexLe, Bool.or_eq_true, decide_eq_true_eq, Bool.and_eq_true, beq_iff_eq] at hab hbc ⊢
+    rcases hab with h1 | ⟨e1, l1⟩
+    · rcases hbc with h2 | ⟨e2, _⟩
+      · left; omega
+      · left; omega
+    · rcases hbc with h2 | ⟨e2, l2⟩
+      · left; omega
+      · right; exact ⟨by omega, ih a b c l1 l2⟩
+
+theorem mem_ordIns {α : Type} (le : α → α → Bool) (a x : α) : ∀ l : List α, x ∈ ordIns le a l ↔ x = a ∨ x ∈ l := by
+  intro l
+  induction l with
+  | nil => simp [ordIns]
+  | cons b t ih =>
+    simp only [ordIns]
+    split
+    · simp
+    · simp only [List.mem_cons, ih]
+      constructor
+      · rintro (h | h | h) <;> simp [h]
+      · rintro (h | h | h) <;> simp [h]
+
+theorem mem_stableSort {α : Type} (le : α → α → Bool) (x : α) : ∀ l : List α, x ∈ stableSort le l ↔ x ∈ l := by
+  intro l
+  induction l with
+  | nil => simp [stableSort]
+  | cons a t ih => simp only [stableSort, mem_ordIns, ih, List.mem_cons]
+
+theorem ordIns_congr {α : Type} (le le' : α → α → Bool) (a : α) : ∀ l : List α, (∀ v ∈ l, le a v = le' a v) →
+    ordIns le a l = ordIns le' a l := by
+  intro l
+  induction l with
+  | nil => intro _; rfl
+  | cons b t ih =>
+    intro h
+    simp only [ordIns, h b (by simp)]
+    rw [ih (fun v hv => h v (by simp [hv]))]
+
+/-- inserting two elements that are not equivalent commutes -/
+theorem ordIns_comm {α : Type} (R : α → α → Bool) (trans : ∀ a b c : α, R a b → R b c → R a c)
+    (a b : α) (hab : (R a b = true ∧ R b a = false) ∨ (R b a = true ∧ R a b = false)) : ∀ l : List α,
+    ordIns R b (ordIns R a l) = ordIns R a (ordIns R b l) := by
+  intro l
+  induction l with
+  | nil =>
+    rcases hab with ⟨h1, h2⟩ | ⟨h1, h2⟩ <;> simp [ordIns, h1, h2]
+  | cons u t ih =>
+    by_cases hau : R a u = true
+    · by_cases hbu : R b u = true
+      · rcases hab with ⟨h1, h2⟩ | ⟨h1, h2⟩ <;> simp [ordIns, hau, hbu, h1, h2]
+      · have hba : R b a = false := by
+          cases hx : R b a with
+          | false => rfl
+          | true => exact absurd (trans b a u hx hau) hbu
+        simp [ordIns, hau, hbu, hba]
+    · by_cases hbu : R b u = true
+      · have hab' : R a b = false := by
+          cases hx : R a b with
+          | false => rfl
+          | true => exact absurd (trans a b u hx hbu) hau
+        simp [ordIns, hau, hbu, hab']
+      · simp only [ordIns, hau, hbu, Bool.false_eq_true, if_false]
+        rw [ih]
+
+section lsd
+variable {α : Type} (f : α → Int) (fs : List (α → Int))
+
+theorem lex_eq_le1 (b v : α) (h : lexLe fs b v = true) : lexLe (f :: fs) b v = leOf f b v := by
+  simp only [lexLe, leOf, h, Bool.and_true]
+  by_cases h1 : f b < f v
+  · have : f b ≤ f v := by omega
+    simp [h1, this]
+  · by_cases e : f b = f v
+    · simp [e]
+    · have : ¬ f b ≤ f v := by omega
+      simp [h1, e, this]
+
+theorem lsd_step : ∀ S : List α, S.Pairwise (fun x y => lexLe fs x y = true) → ∀ a : α,
+    stableSort (leOf f) (ordIns (lexLe fs) a S) = ordIns (lexLe (f :: fs)) a (stableSort (leOf f) S) := by
+  intro S
+  induction S with
+  | nil => intro _ a; rfl
+  | cons b S' ih =>
+    intro hS a
+    have hb : ∀ s ∈ S', lexLe fs b s = true := (List.pairwise_cons.mp hS).1
+    have hS' := (List.pairwise_cons.mp hS).2
+    by_cases hab : lexLe fs a b = true
+    · simp only [ordIns, hab, if_true]
+      show ordIns (leOf f) a (stableSort (leOf f) (b :: S')) = _
+      apply ordIns_congr
+      intro v hv
+      have hv' : v = b ∨ v ∈ S' := by
+        have := (mem_stableSort (leOf f) v (b :: S')).mp hv
+        simpa using this
+      have : lexLe fs a v = true := by
+        rcases hv' with h | h
+        · rw [h]; exact hab
+        · exact lexLe_trans fs a b v hab (hb v h)
+      exact (lex_eq_le1 f fs a v this).symm
+    · have hab' : lexLe fs a b = false := by simpa using hab
+      have hba : lexLe fs b a = true := by
+        have := lexLe_total fs a b
+        simpa [hab'] using this
+      simp only [ordIns, hab', Bool.false_eq_true, if_false]
+      show ordIns (leOf f) b (stableSort (leOf f) (ordIns (lexLe fs) a S')) = _
+      rw [ih hS' a]
+      have c1 : ordIns (leOf f) b (ordIns (lexLe (f :: fs)) a (stableSort (leOf f) S'))
+          = ordIns (lexLe (f :: fs)) b (ordIns (lexLe (f :: fs)) a (stableSort (leOf f) S')) := by
+        apply ordIns_congr
+        intro v hv
+        rcases (mem_ordIns _ a v _).mp hv with h | h
+        · rw [h]; exact (lex_eq_le1 f fs b a hba).symm
+        · exact (lex_eq_le1 f fs b v (hb v ((mem_stableSort _ v S').mp h))).symm
+      have c2 : ordIns (lexLe (f :: fs)) b (stableSort (leOf f) S') = ordIns (leOf f) b (stableSort (leOf f) S') := by
+        apply ordIns_congr
+        intro v hv
+        exact lex_eq_le1 f fs b v (hb v ((mem_stableSort _ v S').mp hv))
+      rw [c1, ordIns_comm (lexLe (f :: fs)) (lexLe_trans (f :: fs)) a b ?_, c2]
+      · rfl
+      · -- a and b are not equivalent: lexLe fs a b fails
+        by_cases h1 : f a < f b
+        · left
+          have : ¬ f b < f a := by omega
+          have e : ¬ f b = f a := by omega
+          simp [lexLe, h1, this, e]
+        · by_cases h2 : f b < f a
+          · right
+            have e : ¬ f a = f b := by omega
+            simp [lexLe, h1, h2, e]
+          · right
+            have e : f a = f b := by omega
+            simp [lexLe, e, hab', hba]
+
+theorem stableSort_pairwise (le : α → α → Bool) (trans : ∀ a b c : α, le a b → le b c → le a c)
+    (total : ∀ a b : α, le a b || le b a) (l : List α) : (stableSort le l).Pairwise (fun x y => le x y = true) := by
+  rw [stableSort_eq_mergeSort le trans total]
+  exact List.pairwise_mergeSort trans total l
+
+/-- one more (more significant) stable pass turns the sort by `fs` into the sort by `f :: fs` -/
+theorem lsd_pass (l : List α) :
+    stableSort (leOf f) (stableSort (lexLe fs) l) = stableSort (lexLe (f :: fs)) l := by
+  induction l with
+  | nil => rfl
+  | cons a l ih =>
+    show stableSort (leOf f) (ordIns (lexLe fs) a (stableSort (lexLe fs) l)) = ordIns (lexLe (f :: fs)) a (stableSort (lexLe (f :: fs)) l)
+    rw [lsd_step f fs _ (stableSort_pairwise _ (lexLe_trans fs) (lexLe_total fs) l) a, ih]
+end lsd
+
+theorem stableSort_lexLe_nil {α : Type} : ∀ l : List α, stableSort (lexLe ([] : List (α → Int))) l = l := by
+  intro l
+  induction l with
+  | nil => rfl
+  | cons a l ih =>
+    simp only [stableSort, ih]
+    cases l <;> simp [ordIns, lexLe]
+
+/-- the passes the code runs (least significant key first) amount to one stable lexicographic sort -/
+theorem lsdSort_eq (κ : OrderKey → Record → Int) (keys : List OrderKey) (rows : List Record) :
+    lsdSort κ keys rows = stableSort (lexLe (keys.map (effKey κ))) rows := by
+  unfold lsdSort
+  induction keys with
+  | nil => simp [stableSort_lexLe_nil]
+  | cons k ks ih =>
+    simp only [List.reverse_cons, List.foldl_append, List.foldl_cons, List.foldl_nil, List.map_cons]
+    rw [ih, lsd_pass]
+
+/-- `order_search_results` on integer-valued order attributes is the stable lexicographic sort -/
+theorem orderResults_eq (κ : OrderKey → Record → Int) (keys : List OrderKey) (rows : List Record)
+    (h : ∀ r ∈ rows, ∀ k ∈ keys, orderKeyOf r k = .ok (.int (κ k r))) :
+    orderResults rows keys = .ok (stableSort (lexLe (keys.map (effKey κ))) rows) := by
+  rw [orderResults_int κ keys rows h, lsdSort_eq]
 
 end FlexModel.Ldm
